@@ -11,7 +11,7 @@ import traceback
 import z3
 
 from . import discharge, extract, sym, types as T
-from .engine import HIter, HSetList, HMap, SObj, HSymList, HList, Opaque, call_by_names, conjuncts
+from .engine import HIter, HSetList, HMap, HFile, SObj, HSymList, HList, Opaque, call_by_names, conjuncts
 from .sym import SInt, SBool, SOpt, SSeq, SEnum
 from .interp import Interp
 
@@ -60,6 +60,8 @@ def concretize(v, model, maxlen=4096):
     if isinstance(v, HIter):
         data = concretize(v.seq, model)
         return ("__iter__", data, concretize(v.pos, model))
+    if isinstance(v, HFile):
+        return ("__file__", concretize(v.seq, model), concretize(v.pos, model))
     if isinstance(v, SObj):
         return ("__obj__", dict((k, concretize(x, model)) for k, x in v.__dict__["_f"].items()))
     if isinstance(v, HSymList):
@@ -115,6 +117,10 @@ def nativize(v):
         return it
     if isinstance(v, tuple) and len(v) == 2 and v[0] == "__obj__":
         return _Rec(dict((k, nativize(x)) for k, x in v[1].items()))
+    if isinstance(v, tuple) and len(v) == 3 and v[0] == "__file__":
+        f = io.BytesIO(v[1])
+        f.seek(v[2])
+        return f
     if isinstance(v, tuple):
         return tuple(nativize(x) for x in v)
     if isinstance(v, list):
@@ -124,7 +130,7 @@ def nativize(v):
 
 def contract_view(v):
     """concrete replay value -> object the contract lambdas see natively (old() views)"""
-    if isinstance(v, tuple) and len(v) == 3 and v[0] == "__iter__":
+    if isinstance(v, tuple) and len(v) == 3 and v[0] in ("__iter__", "__file__"):
         return _Rec({"data": v[1], "pos": v[2], "seq": v[1]})
     if isinstance(v, tuple) and len(v) == 2 and v[0] == "__obj__":
         return _Rec(dict((k, contract_view(x)) for k, x in v[1].items()))
@@ -138,13 +144,39 @@ def native_replay(contract, config, inputs):
     fn = mod
     for part in contract.qualname.split("."):
         fn = getattr(fn, part)
-    args = dict(config or {})
+    args = dict((k, v) for k, v in (config or {}).items() if not k.startswith("_"))
     views = dict(config or {})
     for k, v in inputs.items():
         args[k] = nativize(v)
         views[k] = contract_view(v)
     T.NATIVE = True
     out = {"violated": [], "result": None, "exception": None, "requires_ok": True}
+    stub = _Rec({"entry_cfg": dict(config or {}), "native": True, "native_inputs": inputs})
+    views["_engine"] = stub
+    patches = []
+    for ext in getattr(contract, "externals", []) or []:
+        try:
+            emod = importlib.import_module(ext.modname)
+            orig = getattr(emod, ext.qualname)
+        except Exception:
+            continue
+
+        def wrapper(*a, _ext=ext, _orig=orig, **kw):
+            vals = dict(zip(_ext.external_args, a))
+            vals.update(kw)
+            for k2, v2 in list(vals.items()):
+                if hasattr(v2, "tell") and hasattr(v2, "getvalue"):
+                    vals[k2] = _Rec({"data": v2.getvalue(), "pos": v2.tell(), "seq": v2.getvalue()})
+            vals["_engine"] = stub
+            try:
+                ok = bool(call_by_names(_ext.requires, vals)) if _ext.requires is not None else True
+            except Exception as e:
+                ok = True
+            if not ok:
+                out["violated"].append("pre-of-%s" % _ext.qualname)
+            return getattr(_ext, "native_result", None)
+        patches.append((emod, ext.qualname, orig))
+        setattr(emod, ext.qualname, wrapper)
     try:
         if contract.requires is not None:
             ok = call_by_names(contract.requires, views)
@@ -223,6 +255,8 @@ def native_replay(contract, config, inputs):
         return out
     finally:
         T.NATIVE = False
+        for emod, nm, orig in patches:
+            setattr(emod, nm, orig)
 
 
 def _native_eq(a, b):
